@@ -130,6 +130,7 @@ pub fn strategy() -> BoxedStrategy<Req> {
     let nt = torsion_encodings().len();
     prop_oneof![
         3 => signing_key_verifiers(),
+        1 => byte_pairs(prop_oneof![2 => edwards_encoding().prop_map(|(_, e)| e), 1 => (0..torsion_encodings().len()).prop_map(|i| torsion_encodings()[i])].boxed()).prop_map(|(a, b)| Req::new("sig.key_eq", vec![a.to_vec(), b.to_vec()])),
         3 => mixed_order_small_r(),
         // honest
         2 => (u256_interesting(), message()).prop_map(|(seed, m)| { let e = eddsa::expand(&seed); let s = eddsa::sign(&seed, &m); req(&e.pk, m, &s, vec![], false) }),
@@ -215,6 +216,9 @@ pub fn strategy() -> BoxedStrategy<Req> {
 
 pub fn classify(r: &Req, resp: &Resp) -> Vec<&'static str> {
     let mut l = vec![];
+    if r.op == "sig.key_eq" {
+        return if r.a[0] != r.a[1] && *resp != Resp::Rej { vec!["key-equality-on-distinct-encodings"] } else { vec![] };
+    }
     let mut pk: [u8; 32] = r.a[0][..].try_into().unwrap();
     if r.op == "sig.verify_sk" {
         pk = eddsa::expand(&pk).pk;
